@@ -34,6 +34,10 @@ type Program struct {
 	SSAPkg  map[string]*ssa.Package // import path -> ssa package
 	srcFns  []*ssa.Function         // all source functions of prism packages (incl. anonymous)
 	fnCount int
+
+	initOnlyCache map[*ssa.Global]*stateFinding
+	initReads     map[*ssa.Global]bool
+	execCtx       map[*ssa.Function]*execCtx
 }
 
 // Load loads /repo (or dir) with full syntax and builds SSA.
